@@ -21,7 +21,9 @@ LENS = ["", "l"]
 CONVS = list("diouxXeEfFgGcrsab%") + ["y", "D"]
 
 ARGS = ['1', 'True', '1.5', '"a"', '"ab"', 'b"a"', 'None', '300', '-1', '(1,)', '("a",)', '(1, 2)', '(3, 1)', '(3, 1.5)', '(3, 2, 1.5)', '(3, 2, "a")', '()',
-        '{"a": 1}', '{"a": "x", "b": 2}', '{"b": 1.5}', '{}', '[1]', '(b"a",)', '(1.5,)']
+        '{"a": 1}', '{"a": "x", "b": 2}', '{"b": 1.5}', '{}', '[1]', '(b"a",)', '(1.5,)',
+        # bytes-like but not bytes; mapping keys that are not plain identifiers / not strings
+        'bytearray(b"a")', '{42: "x"}', '{"": 1, "a(b)": 2}']
 
 LINT_OK = [
     "use of % on string with no conversion specifiers",
@@ -61,7 +63,7 @@ def pct_cases(tier):
             for a in ARGS:
                 out.append((tsrc, a))
     # templates with no specifier / incomplete specifier
-    for t in ['""', '"x"', '"%"', '"x%"', '"%("', '"%(a"', '"%(a)"', '"%.f"', '"%l"', 'b"%"', 'b"x"', '"x\\n%d"', '"%d\\n"']:
+    for t in ['""', '"x"', '"%"', '"x%"', '"%("', '"%(a"', '"%(a)"', '"%.f"', '"%l"', 'b"%"', 'b"x"', '"x\\n%d"', '"%d\\n"', '"%()s"', '"%(a(b))s"', '"%(a(b)s"', 'b"%(a)s"', '"%(a)s%(a)s"']:
         for a in ARGS:
             out.append((t, a))
     return out
@@ -86,7 +88,9 @@ def fmt_cases(tier):
             out.append((repr("x" + f + "y"), a))
     two = ["{}", "{0}", "{1}", "{a}", "{0.real}", "{!r}", "{:>4}", "{{", "}}", "{", "}", "{0[0]}", "{:{}}", "{b}",
            # field names that look like numbers to int() but are names (or not) to CPython's parser
-           "{+0}", "{ 0}", "{-1}", "{1_0}", "{00}", "{0:{+1}}", "{\u00b2}", "{\u0661}"]
+           "{+0}", "{ 0}", "{-1}", "{1_0}", "{00}", "{0:{+1}}", "{\u00b2}", "{\u0661}",
+           # nesting depth, braces inside a format spec, text after an index, a non-ASCII attribute name
+           "{:{:{}}}", "{:{{}", "{a[0]x}", "{0[0]x}", "{0.\u00e9}"]
     if tier == "thorough":
         two += ["{2}", "{a.real}", "{a[0]}", "{0!s:>3}", "{:d}", "{!x}", "{0:{1}}", "{:{a}}", "{0.}", "{[}", "{0 }", "{a!r:}"]
     for f1, f2 in itertools.product(two, repeat=2):
@@ -149,6 +153,8 @@ def _features(kind, t, a):
         except Exception:
             av = None
         feats["arg"] = type(av).__name__
+        if isinstance(av, dict) and any(not isinstance(k, str) for k in av):
+            feats["arg"] = "dict-nonstr-key"
     else:
         feats["path"] = ("attr" if re.search(r"\{[^{}:!]*\.", s) else "") + ("index" if re.search(r"\{[^{}:!]*\[", s) else "")
         feats["nested"] = "nested" if re.search(r":[^{}]*\{", s) else "flat"
